@@ -591,31 +591,32 @@ func writeSource(root, name string, s source) (string, error) {
 // ---------------------------------------------------------------- running one CLI case
 
 type result struct {
-	obs       string
-	outcome   string
-	same      bool
-	empty     bool
-	dirw      bool
-	bytesSame bool
-	startObjs int // sqlite_master rows before
-	startUser int // ... that are not engine bookkeeping
-	exit      int
-	dirDiff   string
-	output    string
-	corrupt   string
-	err       error
-	bodyCalls int // api stage: ExecContext calls of bodies / of RestoreFuncs seen
-	restCalls int
+	obs             string
+	outcome         string
+	same            bool
+	empty           bool
+	dirw            bool
+	bytesSame       bool
+	startObjs       int // sqlite_master rows before
+	startUser       int // ... that are not engine bookkeeping
+	exit            int
+	dirDiff         string
+	output          string
+	corrupt         string
+	err             error
+	bodyCalls       int // api stage: ExecContext calls of bodies / of RestoreFuncs seen
+	restCalls       int
+	restoreReported bool // api stage: the returned error carries the injected restore failure
 }
 
 var (
-	markerRe   = regexp.MustCompile(`/\*m(\d+)\*/`)
+	markerRe = regexp.MustCompile(`/\*m(\d+)\*/`)
 	// the errors of Atlas' inspection (sql/sqlite/inspect.go, convert.go; schema.ExcludeRealm/ExcludeSchema)
 	// on objects SQLite accepted: no statement failed, the read of the state did
 	inspectErrRe = regexp.MustCompile(`parse size "|missing partial WHERE clause in|generation expression for column "|syntax error in pattern`)
 	snapshotRe   = regexp.MustCompile(`taking database snapshot`)
-	notCleanRe = regexp.MustCompile(`connected database is not clean`)
-	readonlyRe = regexp.MustCompile(`attempt to write a readonly database`)
+	notCleanRe   = regexp.MustCompile(`connected database is not clean`)
+	readonlyRe   = regexp.MustCompile(`attempt to write a readonly database`)
 )
 
 type lintReport struct {
@@ -878,6 +879,11 @@ func oracle(w *out.W, c *tcase, r *result) {
 		// (decision in Props_C14.v); the correspondence still compares the final state
 		if c.ro && !(r.same && r.bytesSame) {
 			w.Violation(c.id, "readonly-dev-modified", ctxt+": read-only connection, yet the dev database file changed")
+		}
+		// decision C14_restore_always_runs: a database left dirty because the restore failed is
+		// *reported* -- whatever else failed before (api stage; NormalizeSchema is known to drop it)
+		if !c.ro && c.norm != "s" && !r.empty && !(r.same && r.bytesSame) && !r.restoreReported {
+			w.Violation(c.id, "dirty-dev-not-reported", ctxt+": a statement of the restore failed, the dev database is left with content and the error returned does not mention the restore")
 		}
 	case r.outcome == "refused" || r.outcome == "snapfail":
 		// nothing but engine bookkeeping (what `schema clean` leaves behind): Atlas must not refuse it
